@@ -26,6 +26,8 @@ def gen_config(rng, color_format, allow_transform=True, reuse=None):
         keep_glyph_names=rng.random() < 0.3,
         clipbox_quantization=rng.choice([None, None, 1, 16, 50]),
     )
+    if color_format.startswith("cff"):
+        cfg["output_file"] = "Font.otf"  # the outline flavour follows the output file's suffix, not the colour format
     if allow_transform and rng.random() < 0.3:
         cfg["transform"] = rng.choice(
             [
